@@ -49,3 +49,107 @@ def corr_stage(res, cases, impl_exe, runner, kind_fn=None, nontrivial_fn=None, i
 def no_input_violation(res, what, detail):
     res.fail("unproved:" + what, "%s no longer checks and no failing input was found: %s" % (what, detail),
              {"no_failing_input_found": True, "broken": what, "detail": detail})
+
+
+def load_corpus(pid):
+    """corpus/<pid>/*.txt: one case line per line ('#' comments); run first on every tier."""
+    d = os.path.join(VERIF, "corpus", pid)
+    out = []
+    if os.path.isdir(d):
+        for f in sorted(os.listdir(d)):
+            if f.endswith(".txt"):
+                for line in open(os.path.join(d, f)):
+                    line = line.rstrip("\n")
+                    if line.strip() and not line.startswith("#"):
+                        out.append(line)
+    return out
+
+
+def run_standard(res, pid, tier, *, area, build_impl, gen_cases, oracle, corr_name,
+                 gens=(), n_quick=20000, n_thorough=300000, kind_fn=None, nontrivial_fn=None,
+                 norm_impl=None, norm_model=None, mutate=None, impl_env=None, seed_salt=0,
+                 model_blind=None):
+    """The standard P/C/S pipeline for a unit-level property.
+
+    build_impl()            -> path of the C++ harness built from /repo's working tree
+    gen_cases(rng, n)       -> list of case lines (same syntax for harness and ml runner)
+    oracle(case, impl_out)  -> None if the implementation's answer satisfies the property,
+                               else (signature, description); evaluated on the IMPLEMENTATION output,
+                               with an independent statement of the property (not the model)
+    mutate(rng, case)       -> a neighbouring case (used by the search stage); optional
+    model_blind(case)       -> True for cases the model deliberately does not cover (not diffed)
+    """
+    rng = random.Random(seed() * 1000003 + seed_salt)
+    ok, err = proof_stage(res, pid, gens=gens)
+    try:
+        exe = build_impl()
+    except hbuild.BuildError as ex:
+        res.fail("build", "%s: harness no longer builds against /repo's working tree: %s" % (pid, str(ex)[-1200:]),
+                 {"no_failing_input_found": True, "broken": "harness build " + corr_name, "detail": str(ex)[-3000:]})
+        if not ok:
+            res.notes.append("proof stage failed: " + err)
+        return
+    runner = coq.build_runner(area)
+    n = n_quick if tier == "quick" else n_thorough
+    corpus = load_corpus(pid)
+    cases = corpus + gen_cases(rng, n)
+    impl_out, model_out, dis = corr_stage(res, cases, exe, runner, kind_fn=kind_fn, nontrivial_fn=nontrivial_fn,
+                                          impl_env=impl_env, norm_impl=norm_impl, norm_model=norm_model)
+    if model_blind:
+        dis = [d for d in dis if not model_blind(d[1])]
+    for c in cases[len(corpus):len(corpus) + 5]:
+        res.sample(c[:300])
+    found = 0
+    for c, o in zip(cases, impl_out):
+        v = oracle(c, o)
+        if v:
+            sig, why = v
+            if res.fail(sig, "%s on input `%s`: implementation answered `%s`: %s" % (pid, c[:400], o[:300], why),
+                        {"case": c, "impl": o, "oracle": why, "signature": sig}):
+                found += 1
+    # search stage: neighbourhood of disagreements with a 10x budget
+    if dis and not found and mutate:
+        srng = random.Random(seed() * 7919 + 13)
+        neigh = []
+        for k, c, a, b in dis[:200]:
+            for _ in range(50):
+                neigh.append(mutate(srng, c))
+        nout = corr.run_lines(exe, neigh, env=impl_env)
+        if norm_impl:
+            nout = [norm_impl(x) for x in nout]
+        for c, o in zip(neigh, nout):
+            v = oracle(c, o)
+            if v:
+                sig, why = v
+                if res.fail(sig, "%s on input `%s` (found near a model/implementation disagreement): implementation answered `%s`: %s"
+                            % (pid, c[:400], o[:300], why), {"case": c, "impl": o, "oracle": why, "signature": sig}):
+                    found += 1
+        res.extra["search_cases"] = len(neigh)
+    if dis and not found:
+        k, c, a, b = dis[0]
+        res.fail("corr:" + c.split()[0],
+                 "model and implementation disagree on %d cases (first: `%s` impl=`%s` model=`%s`); the property oracle holds on every implementation answer explored"
+                 % (len(dis), c[:300], a[:150], b[:150]),
+                 {"no_failing_input_found": True, "broken": "correspondence " + corr_name,
+                  "case": c, "impl": a, "model": b, "disagreements": len(dis)})
+    if not ok and not found:
+        # a proof obligation broke: search the implementation harder (4x fresh population) before giving up
+        extra = gen_cases(random.Random(seed() * 104729 + 7), 4 * n)
+        eout = corr.run_lines(exe, extra, env=impl_env)
+        if norm_impl:
+            eout = [norm_impl(x) for x in eout]
+        for c, o in zip(extra, eout):
+            v = oracle(c, o)
+            if v:
+                sig, why = v
+                if res.fail(sig, "%s on input `%s` (found after proof obligation broke: %s): implementation answered `%s`: %s"
+                            % (pid, c[:400], err[:200], o[:300], why), {"case": c, "impl": o, "oracle": why, "signature": sig,
+                                                                        "broken_obligation": err}):
+                    found += 1
+        res.extra["proof_broken_search_cases"] = len(extra)
+    if not ok and not found:
+        no_input_violation(res, "Properties_%s.v" % pid, err)
+    elif not ok:
+        res.notes.append("proof stage failed: " + err)
+    res.extra["disagreements"] = len(dis)
+    res.extra["corpus_cases"] = len(corpus)
